@@ -171,13 +171,18 @@ def dataset_cases(draw, meshes_as_on_disk=False):
     u = draw(unit_cases(early_epochs=False))      # (time stamps are numpy datetime64[ns] here)
     u["calendar"] = None
     tname, tdim = c12.TIME_NAMES.get(conv, ("time", "time"))
-    nt = draw(st.integers(1, 4))
+    time_as = "coord"
+    if conv == "shoc_simple" and draw(st.booleans()):
+        tdim, time_as = "record", "var"       # time(record), a plain data variable
+    # (an unlimited record dimension with no records yet has length 0)
+    nt = draw(st.sampled_from([0, 1, 2, 3, 4, 1, 2, 3]))
     step = draw(st.sampled_from([1, 1, 2, 0.5, 0.125]))
     spec["time"] = {"name": tname, "dim": tdim, "units": build_units(u),
                     "values": [k * step for k in range(nt)],
                     "dtype": "f8" if isinstance(step, float) else draw(st.sampled_from(["f8", "i4"])),
                     "calendar": draw(st.sampled_from([None, None, "standard", "gregorian",
-                                                      "proleptic_gregorian"]))}
+                                                      "proleptic_gregorian"])),
+                    "as": time_as}
     spec["extra"] = {tdim: nt}
     shapes = specs.grid_shapes(spec)
     n_grid = 1 if conv == "ugrid" else 2
@@ -211,7 +216,7 @@ def check_dataset(case, ctx):
         warnings.simplefilter("ignore")
         ds = specs.build(spec)
         tname = spec["time"]["name"]
-        if case.get("scalar_time") and spec["mode"] != "raw":
+        if case.get("scalar_time") and spec["mode"] != "raw" and spec["time"]["values"]:
             # a single time step selected out of the series: the time coordinate is a scalar
             ds = ds.isel({spec["time"]["dim"]: 0})
         retimed = False
@@ -282,7 +287,9 @@ def check_dataset(case, ctx):
             want = reference_instant(case["units"])
             # (a re-timed series may legitimately be written in a finer unit: there the instants
             # themselves, compared above, are the evidence)
-            ctx.check(retimed or (parsed[1] == want and parsed[0] == case["units"]["period"]),
+            # (an empty series stores no numbers: which unit the writer names is then immaterial)
+            empty = not spec["time"]["values"]
+            ctx.check(retimed or empty or (parsed[1] == want and parsed[0] == case["units"]["period"]),
                       "C17.units_same_instant",
                       lambda: f"{what}: file says {raw_units!r} = {parsed[0]} since {parsed[1]} UTC; the "
                       f"source means {case['units']['period']} since {want} UTC")
@@ -300,8 +307,12 @@ def check_dataset(case, ctx):
     ctx.label("time_dtype:" + spec["time"]["dtype"])
     ctx.label(f"calendar:{spec['time'].get('calendar')}")
     ctx.label("mode:" + spec["mode"])
-    if case.get("scalar_time") and spec["mode"] != "raw":
+    if case.get("scalar_time") and spec["mode"] != "raw" and spec["time"]["values"]:
         ctx.label("scalar_time_coordinate")
+    if not spec["time"]["values"]:
+        ctx.label("empty_time_dimension")
+    if spec["time"].get("as") == "var":
+        ctx.label("time_is_a_data_variable")
     if retimed:
         ctx.label("retimed_series_with_integer_encoding")
     ctx.nontrivial(isinstance(off, int) and (off < 0 or abs(off) < 600 or off % 60 != 0))
